@@ -176,6 +176,11 @@ type whist struct {
 	bufGen  int
 
 	plan atomic.Pointer[holdPlan]
+	held *holdPlan // the worker is waiting at this plan's point right now
+
+	// rows / flush requests handed to the workers (the end of a failed case waits for them before it closes)
+	inFlight []*sent
+	requests []*flushReq
 
 	metrics []mkey
 	images  int
@@ -192,10 +197,13 @@ func (h *whist) logf(format string, args ...any) {
 // schedule may not repeat when rapid re-runs the case ("flaky"), the message must not be lost then.
 var firstFailure sync.Once
 
+// workerCases counts the cases of the process (reported with the first failure).
+var workerCases atomic.Int32
+
 func (h *whist) fatalf(format string, args ...any) {
 	msg := fmt.Sprintf(format, args...)
 	firstFailure.Do(func() {
-		fmt.Fprintf(os.Stderr, "TestWorkerHistory: first failure of this run: %s\nhistory:\n  %s\n", msg, strings.Join(h.ops, "\n  "))
+		fmt.Fprintf(os.Stderr, "TestWorkerHistory: first failure of this run (case %d): %s\nhistory:\n  %s\n", workerCases.Load(), msg, strings.Join(h.ops, "\n  "))
 	})
 	h.t.Fatalf("%s\nhistory:\n  %s", msg, strings.Join(h.ops, "\n  "))
 }
@@ -300,13 +308,14 @@ func (h *whist) send(r rowSpec, shard int) *sent {
 	err = mdb.WriteRow(row)
 	release()
 	mdb.CompleteWrite()
-	if err != nil {
-		h.fatalf("WriteRow(%s): %v", r, err)
-	}
 	go func() {
 		row.Wait()
 		close(s.done)
 	}()
+	h.inFlight = append(h.inFlight, s)
+	if err != nil {
+		h.fatalf("WriteRow(%s): %v", r, err)
+	}
 	return s
 }
 
@@ -367,6 +376,7 @@ func (h *whist) request(shard int, claimSeq int) *flushReq {
 		f.what = fmt.Sprintf("idx%d", shard)
 		go func() { h.w.idxDB[shard].Notify(event); close(f.notified) }()
 	}
+	h.requests = append(h.requests, f)
 	return f
 }
 
@@ -490,6 +500,7 @@ func (h *whist) heldFlush() {
 		return
 	}
 	h.plan.Store(nil)
+	h.held = p
 	h.classes["hold-reached"]++
 	h.classes["hold-"+worker+"-worker-at="+where]++
 	if dropped {
@@ -554,6 +565,7 @@ func (h *whist) heldFlush() {
 	}
 	h.logf("  released")
 	close(p.release)
+	h.held = nil
 	for _, x := range rows {
 		<-x.done
 	}
@@ -594,7 +606,30 @@ func (h *whist) image() {
 	}
 }
 
+// drain: end of a case. After a failure a held worker was just released and flushes may still run: the workers
+// must be idle before the databases are closed below them (bounded: a case that already failed must not hang).
+func (h *whist) drain() {
+	limit := time.After(5 * time.Second)
+	for _, s := range h.inFlight {
+		select {
+		case <-s.done:
+		case <-limit:
+			return
+		}
+	}
+	for _, f := range h.requests {
+		if !f.got {
+			select {
+			case <-f.result:
+			case <-limit:
+				return
+			}
+		}
+	}
+}
+
 func runWorkerHistory(t *rapid.T) {
+	workerCases.Add(1)
 	dir := mustTempDir("c09w-")
 	nIdx := rapid.IntRange(1, 2).Draw(t, "nIdx")
 	h := &whist{t: t, dir: dir, root: filepath.Join(dir, "live"), nIdx: nIdx, m: newModel(nIdx),
@@ -610,17 +645,16 @@ func runWorkerHistory(t *rapid.T) {
 	h.w = w
 	defer func() {
 		if p := h.plan.Swap(nil); p != nil {
+			// a failed case: nobody waits for the plan's point any more, a worker that reaches it must go on
 			p.mu.Lock()
-			if !p.done {
-				p.done = true
-			}
+			p.done = true
 			p.mu.Unlock()
-			select {
-			case <-p.release:
-			default:
-				close(p.release)
-			}
 		}
+		if h.held != nil {
+			close(h.held.release)
+			h.held = nil
+		}
+		h.drain()
 		h.w.close()
 		_ = os.RemoveAll(dir)
 	}()
